@@ -289,7 +289,7 @@ def build():
                  'Exit 0 = held (KNOWN-FINDING lines possible), 1 = VIOLATION, 2 = machinery failure. '
                  'Defects repaired in /repo by unguarded "fix:" commits (known_findings.json, status fixed): 9175c8d 1f3fda5 '
                  '24b925f da590ef edf8ea0 282bdbf 7f5c6d3 1e89907 90143a2 00ad5c2 8731fdb 264d93e e476827 720780d 601be0f 36562b8 d7225b6 e42d32f cc12f34 76c75c8 946eb1f 6d65e27 1733c97 9ac12a2. The specification also covers '
-                 'behaviour outside the 20 statements: extension suites ./check X01 .. X18 (DESIGN.md A.7; evidence in '
+                 'behaviour outside the 20 statements: extension suites ./check X01 .. X19 (DESIGN.md A.7; evidence in '
                  'evidence_ext/, DISAGREEMENT lines, not registered as claims).',
     }
     with open(ROOT / 'MANIFEST.json', 'w') as f:
